@@ -504,6 +504,9 @@ def run(ctx):
             ctx.ob("R07.5", "evaluate|%s|int-min-by-minus-one" % n["op"], ok1, ev.loc(n), "integer `%s` is %sguarded against INT_MIN %s -1 (SIGFPE on x86)" % (n["op"], "" if ok1 else "NOT ", n["op"]))
     ctx.floor("R07.5", "integer divisions in evaluate()", n_div, 2)
 
+    # ------------------------------------------------------------ R07.7
+    char_literal_values(ctx)
+
     # ------------------------------------------------------------ R07.6
     n_c = 0
     for fname in ("InterrogateBuilder::define_enum_type", "InterrogateBuilder::scan_manifest", "InterrogateBuilder::define_array_type"):
@@ -611,3 +614,80 @@ def _under_real_test(fn, node):
                 return o == "=="
         return False
     return G.gated(fn, node, G.edges_where(fn, is_real))
+
+
+
+_INT_TYPES = {
+    # name -> (bits, signed)
+    "char": (8, True), "signed char": (8, True), "unsigned char": (8, False), "short": (16, True), "unsigned short": (16, False),
+    "int": (32, True), "unsigned int": (32, False), "unsigned": (32, False), "long": (64, True), "unsigned long": (64, False),
+    "long long": (64, True), "unsigned long long": (64, False), "size_t": (64, False), "uint8_t": (8, False), "int8_t": (8, True),
+}
+
+
+def _wrap(v, ty):
+    bits, signed = _INT_TYPES[ty]
+    v &= (1 << bits) - 1
+    if signed and v >= 1 << (bits - 1):
+        v -= 1 << bits
+    return v
+
+
+def char_literal_values(ctx):
+    """R07.7: a plain character literal has type char; on this platform (x86-64 SysV, char signed) its value as an int is
+    the sign-extended byte.  The scanner turns the scanned byte str[0] into the token's integer; the conversion chain is
+    evaluated from the expression tree at sample bytes and compared with what the compiler computes."""
+    db = ctx.db
+    ctx.rule("R07.7", "every site that stores the first byte of a scanned character literal as the token's integer value converts it like the compiler does, evaluated at the bytes 0x00, 0x41, 0x7f, 0x80, 0xff: (int)(char)b for a plain literal, b for L'..'/u'..'/U'..'")
+    n = 0
+    seen = {}
+    for f in db.functions:
+        if not f.file.endswith("cppPreprocessor.cxx"):
+            continue
+        for x in f.walk():
+            t = assigned_target(x)
+            if not t or not (field_of(t[0]) or "").endswith("::integer"):
+                continue
+            # rhs = casts around  <string local>[0]
+            chain = []
+            e = t[1]
+            elem = None
+            while e is not None:
+                if e.get("k") == "cast":
+                    chain.append(e.get("ty"))
+                    e = e.get("e")
+                    continue
+                pe = peel(e)
+                if pe is not e:
+                    e = pe
+                    continue
+                if e.get("k") == "call" and e.get("f") in ("std::basic_string::operator[]", "std::basic_string::at") and const_int((e.get("a") or [None])[-1]) == 0:
+                    elem = e
+                break
+            if elem is None:
+                continue
+            n += 1
+            types = [ty.replace("const ", "").strip() for ty in reversed(chain) if ty]
+            unknown = [ty for ty in types if ty not in _INT_TYPES]
+            inst = "%s|char-literal-value" % f.name
+            if unknown:
+                ctx.ob("R07.7", inst, False, f.loc(x), "conversion through %s cannot be evaluated" % unknown)
+                continue
+            # a site behind tests of the prefix spelling (L, u, U, u8) handles wide / unicode literals, whose types are
+            # unsigned on this platform: L'\xff' == 255
+            prefixed = any(y.get("k") == "str" and y.get("v") in ("L", "u", "U") for y in f.walk())
+            if prefixed:
+                inst = "%s|prefixed-char-literal-value" % f.name
+            bad = []
+            for b in (0x00, 0x41, 0x7f, 0x80, 0xff):
+                v = _wrap(b, "char")            # what std::string holds
+                want = b if prefixed else v     # (int) of a plain char literal / of L'..', u'..', U'..'
+                for ty in types:
+                    v = _wrap(v, ty)
+                v = _wrap(v, "long long")       # the token's integer field
+                if v != want:
+                    bad.append("byte 0x%02x -> %d, compiler %d" % (b, v, want))
+            seen[inst] = tuple(types)
+            ctx.ob("R07.7", inst, not bad, f.loc(x), "`%s` converts through %s: %s" % (show(x), types or ["(implicit)"], "; ".join(bad) if bad else "equal to the compiler's value at all sample bytes"))
+    ctx.floor("R07.7", "character-literal value sites", n, 2)
+
